@@ -100,7 +100,12 @@ fn print_rule<W: Write>(
   let name = path.display();
   let line = m.start_pos().line() + 1;
   let end_line = m.end_pos().line() + 1;
-  let message = rule.get_message(&m);
+  // a workflow command ends at the first line break: escape the message data as GitHub requires
+  let message = rule
+    .get_message(&m)
+    .replace('%', "%25")
+    .replace('\r', "%0D")
+    .replace('\n', "%0A");
   writeln!(
     writer,
     "::{level} file={name},line={line},endLine={end_line},title={title}::{message}"
